@@ -393,4 +393,18 @@ Section MergeQ.
     - exfalso. unfold analyse_paths in Ea. destruct file_list; [congruence|discriminate].
     - exfalso. unfold analyse_paths in Ea. destruct (map parts_of file_list); discriminate.
   Qed.
+
+  (* a list whose first element is a multi-file dataset (hive/drill sub-datasets) always takes the legacy path:
+     with and without an fsspec filesystem metadata_from_many returns the same *)
+  Theorem subdatasets_always_legacy (file_list : list str) (pf0 : pfile S X) rest verify fs root :
+    pf_simple S X pf0 = false ->
+    is_legacy S X verify fs (pf0 :: rest) = true /\
+    metadata_from_many S seqb slen X file_list (pf0 :: rest) verify fs root
+    = metadata_from_many S seqb slen X file_list (pf0 :: rest) verify false root.
+  Proof.
+    intros H.
+    assert (E : forall f, is_legacy S X verify f (pf0 :: rest) = true).
+    { intros f. unfold is_legacy. rewrite H. cbn [negb]. now rewrite orb_true_r. }
+    split; [apply E|]. unfold metadata_from_many. now rewrite !E.
+  Qed.
 End MergeQ.
